@@ -542,23 +542,32 @@ impl BTree {
             let kind = Page::new(&mut buf).kind()?;
             match kind {
                 PageKind::Leaf => {
-                    let mut page = Page::new(&mut buf);
-                    // Use binary search to find exact match
-                    if let Ok(idx) =
-                        (0..page.cell_count())
-                            .collect::<Vec<_>>()
-                            .binary_search_by(|&i| {
-                                let (k, v) = page.leaf_cell_key_and_payload(i).unwrap();
-                                (k, v).cmp(&(key, payload))
-                            })
-                    {
-                        // Found it, delete in place
-                        page.delete_from_leaf(idx)?;
-                        pager.write_page(cur, &buf)?;
-                        return Ok(true);
-                    } else {
-                        // Not found in this leaf
-                        return Ok(false);
+                    // Entries with equal keys are ordered by recency, not by payload, and
+                    // the run may continue in the following leaves: walk the run of `key`
+                    // from its first entry and delete the first entry with `payload`.
+                    let mut leaf_id = cur;
+                    let mut slot = Page::new(&mut buf).leaf_lower_bound(key)?;
+                    loop {
+                        let mut page = Page::new(&mut buf);
+                        while slot < page.cell_count() {
+                            let (k, v) = page.leaf_cell_key_and_payload(slot)?;
+                            if k != key {
+                                return Ok(false);
+                            }
+                            if v == payload {
+                                page.delete_from_leaf(slot)?;
+                                pager.write_page(leaf_id, &buf)?;
+                                return Ok(true);
+                            }
+                            slot += 1;
+                        }
+                        let next = page.right_sibling();
+                        if next.as_u64() == 0 {
+                            return Ok(false);
+                        }
+                        leaf_id = next;
+                        buf = pager.read_page(leaf_id)?;
+                        slot = 0;
                     }
                 }
                 PageKind::Internal => {
